@@ -291,7 +291,7 @@ def check(run, replay=None):
         stress_cases(run, run.seed, mods, 24, 6)
         sparse_cases(run, run.seed, mods, 60)
         if not os.environ.get("VERIF_ASAN_RERUN"):
-            sched_tier(run, run.seed, 24, 12, 6)
+            sched_tier(run, run.seed, 16, 9, 6)
     else:
         stress_cases(run, run.seed, mods, 400, 25)
         sparse_cases(run, run.seed, mods, 2000)
